@@ -96,6 +96,9 @@ func (rec *Recorder) Validate(run *Run, shards int) *TraceSummary {
 		run.Inconclusive("trace validation failed: %v", err)
 	}
 	fmt.Printf("tlc: %d events judged in %.1fs (%d skipped)\n", sum.Judged, time.Since(t0).Seconds(), sum.Skipped)
+	if len(run.Samples) == 0 && len(rec.Events) >= 2 { // always show what a case looks like
+		run.AddSample(map[string]any{"setup": rec.Events[0], "first_event": rec.Events[1]})
+	}
 	run.Coverage["traces_validated_against_impl"] = sum.Lines
 	run.Coverage["tlc_wall_s"] = time.Since(t0).Seconds()
 	for _, b := range sum.Bad {
